@@ -499,7 +499,16 @@ func ruleEN4(c *Ctx) *rule {
 					}
 				}
 			}
-			if isLit || isBuiltin {
+			constOrigin := ""
+			for _, o := range origins(mu.Value) {
+				if cst, isC := o.(*ssa.Const); isC {
+					sv, _ := constString(cst)
+					constOrigin = fmt.Sprintf("%q", sv)
+				}
+			}
+			if (isLit || isBuiltin) && constOrigin != "" {
+				r.bad(key, c.ipos(mu), "on some path the variable is given the constant "+constOrigin+" instead of the literal / the result of its builtin: the builtin is not called (and cannot fail) there, so a spokfile that does not load is accepted")
+			} else if isLit || isBuiltin {
 				r.ok(key, c.ipos(mu), "keyed by the identifier, value from the literal / builtin")
 			} else {
 				r.bad(key, c.ipos(mu), "the stored value is neither the string literal of the assignment nor the result of its builtin call")
@@ -843,6 +852,79 @@ func okMethodSound(c *Ctx, f *ssa.Function) (bool, string) {
 }
 
 // ---- SH2: the interpreter stops a command line at its first failing statement -----------------------------------------------------
+
+// ---- SH3: an exec handler of the module never answers a command with success on its own --------------------------------------------
+
+func ruleSH3(c *Ctx) *rule {
+	r := &rule{ID: "SH3", Engine: "E2+E3", Floor: 0,
+		Statement: "every function of the module that has the shape of an interpreter exec handler (func(context.Context, []string) error) returns, on every path, the error of the handler it delegates to or an error of its own making, never a constant nil",
+		Necessity: "the interpreter turns the handler's error into the command's exit status; a handler that prints a hint and returns nil (for a program that is not installed, say) makes that command exit 0: the invocation succeeds and the task is recorded as up to date"}
+	n := 0
+	for _, f := range c.ModFuncs {
+		sig := f.Signature
+		if sig.Params().Len() != 2 || sig.Results().Len() != 1 || !isErrorType(sig.Results().At(0).Type()) {
+			continue
+		}
+		if nm := namedOf(sig.Params().At(0).Type()); nm == nil || nm.Obj().Pkg() == nil || nm.Obj().Pkg().Path() != "context" || nm.Obj().Name() != "Context" {
+			continue
+		}
+		sl, isSl := sig.Params().At(1).Type().Underlying().(*types.Slice)
+		if !isSl {
+			continue
+		}
+		if b, isB := sl.Elem().Underlying().(*types.Basic); !isB || b.Kind() != types.String {
+			continue
+		}
+		if len(f.Blocks) == 0 {
+			continue
+		}
+		n++
+		for i, ret := range returnsOf(f) {
+			key := fmt.Sprintf("%s return#%d", fname(f), i+1)
+			ev := returnedErr(ret)
+			constNil := false
+			if ev == nil {
+				constNil = true
+			} else {
+				for _, o := range append([]ssa.Value{ev}, origins(ev)...) {
+					if isNilConst(o) {
+						constNil = true
+					}
+				}
+			}
+			// a nil that is only returned where a delegated call's error was tested nil is that call's own verdict
+			if constNil && ev != nil {
+				if _, isPhi := ev.(*ssa.Phi); !isPhi && !isNilConst(ev) {
+					constNil = false
+				}
+			}
+			if constNil {
+				delegated := false
+				for _, g := range c.info(f).necessaryGuards(ret.Block()) {
+					if x, nonNilWhenTrue, isTest := errNilTest(g.cond); isTest && nonNilWhenTrue != g.pol {
+						if ex, isEx := x.(*ssa.Extract); isEx {
+							_ = ex
+							delegated = true
+						} else if _, isCall := x.(*ssa.Call); isCall {
+							delegated = true
+						}
+					}
+				}
+				if delegated {
+					r.ok(key, c.ipos(ret), "nil only where the delegated call reported nil")
+				} else {
+					r.bad(key, c.ipos(ret), "the handler answers the command itself and returns nil: the command counts as exit status 0 whatever happened")
+				}
+			} else {
+				r.ok(key, c.ipos(ret), "returns a delegated or constructed error")
+			}
+		}
+	}
+	if n == 0 {
+		r.ok("module exec handlers", "-", "the module defines no exec handler of its own (the library's default handler runs the commands)")
+	}
+	return r
+}
 
 func ruleSH2(c *Ctx) *rule {
 	r := &rule{ID: "SH2", Engine: "E3", Floor: 1,
